@@ -308,6 +308,11 @@ impl ShmReader {
             // SAFETY: `ceb_at` has been checked to be valid while creating the ShmReader
             let snapshot = unsafe { self.ceb_shm.read_volatile() };
 
+            // The load below only keeps *later* accesses from being reordered before it. This
+            // fence keeps the reads of the ClockErrorBound data above from being satisfied after
+            // the generation number is read again (they can on weakly ordered CPUs otherwise).
+            atomic::fence(atomic::Ordering::Acquire);
+
             // Confirm no update occurred during the read
             let second_gen = generation.load(atomic::Ordering::Acquire);
             if first_gen == second_gen {
